@@ -55,16 +55,32 @@ def opExec (j : Json) : P Json := do
   let mut dumps : List Json := []
   let mut specDumps : List Json := []
   let perStep := (optFld j "dump_each").isSome
+  -- `resets`: positions in the history BEFORE which the application calls `ModbusSlaveContext.reset()`
+  let resets ← match optFld j "resets" with
+    | some rs => ints rs
+    | none => pure []
+  let mut i : Nat := 0
   for r in reqs do
+    if resets.contains (Int.ofNat i) then
+      s := s.reset
     let x := Impl.serverExecute s r
     s := x.1
     outs := jResp x.2 :: outs
     if perStep then
       dumps := jSlaveDump s :: dumps
+    i := i + 1
+  let specResets ← match optFld j "spec_resets" with
+    | some rs => ints rs
+    | none => pure resets
+  let mut k : Nat := 0
   for r in specReqs do
+    if specResets.contains (Int.ofNat k) then
+      -- spec: `RegisterFile.Mem.reset` (tied to `SlaveCtx.reset` by `C04.reset_refines`)
+      m := m.reset L
     let y := RegisterFile.step L m r
     m := y.1
     specOuts := jResp y.2 :: specOuts
+    k := k + 1
   let cells := fun (mm : RegisterFile.Mem) =>
     jArr ((List.range s0.blocks.length).zipWith (fun (k : Nat) (w : Int × Int) => jCells (mm k) w.1 w.2) win)
   specDumps := [cells m]
